@@ -145,12 +145,12 @@ class Run:
             shutil.rmtree(md, ignore_errors=True)
         return p.returncode, p.stdout
 
-    def mc(self, module, cfg, workers=NCPU, timeout=1800, heap="12g", expect_ok=True, coverage=False):
+    def mc(self, module, cfg, workers=NCPU, timeout=1800, heap="12g", expect_ok=True, coverage=False, env=None):
         """Model-check a bounded configuration.  A violated invariant of a pure
         model is an infrastructure failure (the reference model is wrong) unless
         the caller asks for the raw result (models fed with tables from the code)."""
         t = time.time()
-        rc, out = self.tlc(module, cfg, workers=workers, timeout=timeout, heap=heap,
+        rc, out = self.tlc(module, cfg, workers=workers, timeout=timeout, heap=heap, env=env,
                            extra=(["-coverage", "1"] if coverage else []), tag="mc")
         m = None
         for line in out.splitlines():
@@ -315,8 +315,8 @@ class Run:
         os.remove(path)
 
     # ------------------------------------------------------- behaviour export
-    def export_edges(self, module, cfg, marker="EDGE", workers=4, timeout=1800, heap="8g"):
-        rc, out = self.tlc(module, cfg, workers=workers, timeout=timeout, heap=heap, tag="mbt")
+    def export_edges(self, module, cfg, marker="EDGE", workers=NCPU, timeout=1800, heap="8g", env=None):
+        rc, out = self.tlc(module, cfg, workers=workers, timeout=timeout, heap=heap, tag="mbt", env=env)
         if "Model checking completed. No error has been found." not in out:
             raise Infra("behaviour export %s/%s failed:\n%s" % (module, cfg, out[-3000:]))
         edges = []
